@@ -38,10 +38,36 @@ def gen_tables():
     return rc == 0, out.strip()
 
 
+def gen_extract():
+    """theories/Extract.v is generated from coq/extract/*.list (one qualified constant per line)."""
+    names = []
+    for f in sorted(glob.glob(os.path.join(COQ, "extract", "*.list"))):
+        for l in open(f):
+            l = l.strip()
+            if l and not l.startswith("#") and l not in names:
+                names.append(l)
+    mods = []
+    for n in names:
+        m = n.rsplit(".", 1)[0]
+        if m not in mods:
+            mods.append(m)
+    txt = ("(* GENERATED from coq/extract/*.list -- the only file with extraction directives.\n"
+           "   ExtrOcamlBasic only: bool/option/unit/list/prod/sumbool/sumor map to OCaml's own;\n"
+           "   positive/N/Z/nat stay Coq's datatypes; no Extract Constant. *)\n"
+           "From JV Require Import %s.\nRequire Import ExtrOcamlBasic.\n"
+           "Cd \"../ocaml/extracted\".\nSeparate Extraction\n  %s.\nCd \"../../coq\".\n") % (" ".join(mods), "\n  ".join(names))
+    os.makedirs(os.path.join(ROOT, "ocaml", "extracted"), exist_ok=True)
+    p = os.path.join(COQ, "theories", "Extract.v")
+    if not os.path.exists(p) or open(p).read() != txt:
+        open(p, "w").write(txt)
+
+
 def coq_project():
+    gen_extract()
     vs = sorted(os.path.relpath(p, COQ) for p in glob.glob(os.path.join(COQ, "theories", "**", "*.v"), recursive=True))
-    if "theories/Tables.v" not in vs:
-        vs.append("theories/Tables.v")
+    for g in ("theories/Tables.v", "theories/Extract.v"):
+        if g not in vs:
+            vs.append(g)
     txt = "-Q theories JV\n-arg -w -arg -notation-overridden,-deprecated-hint-without-locality,-deprecated-instance-without-locality,-ambiguous-paths,-redundant-canonical-projection\n" + "\n".join(sorted(vs)) + "\n"
     p = os.path.join(COQ, "_CoqProject")
     old = open(p).read() if os.path.exists(p) else None
@@ -173,11 +199,28 @@ def harness_dir():
     p = os.path.join(d, "Cargo.toml")
     if not os.path.exists(p) or open(p).read() != toml:
         open(p, "w").write(toml)
-    link = os.path.join(d, "src")
-    if not os.path.islink(link):
-        if os.path.exists(link):
-            shutil.rmtree(link)
-        os.symlink(os.path.join(ROOT, "harness", "src"), link)
+    src = os.path.join(d, "src")
+    if os.path.islink(src):
+        os.unlink(src)
+    os.makedirs(src, exist_ok=True)
+    want = {}
+    fams = []
+    for f in sorted(glob.glob(os.path.join(ROOT, "harness", "src", "*.rs"))):
+        b = os.path.basename(f)
+        want[b] = open(f).read()
+        if b.startswith("fam_"):
+            fams.append(b[:-3])
+    want["fams.rs"] = ("// GENERATED: one line per harness/src/fam_*.rs\n" + "".join("#[path = \"%s.rs\"]\npub mod %s;\n" % (f, f) for f in fams)
+                       + "pub fn dispatch(kind: &str, args: &[&str]) -> Option<String> {\n"
+                       + "".join("    if let Some(r) = %s::dispatch(kind, args) {\n        return Some(r);\n    }\n" % f for f in fams)
+                       + "    None\n}\n")
+    for b, txt in want.items():
+        q = os.path.join(src, b)
+        if not os.path.exists(q) or open(q).read() != txt:
+            open(q, "w").write(txt)
+    for q in glob.glob(os.path.join(src, "*.rs")):
+        if os.path.basename(q) not in want:
+            os.unlink(q)
     lock = os.path.join(d, "Cargo.lock")
     if not os.path.exists(lock):
         shutil.copy(os.path.join(REPO, "Cargo.lock"), lock)
